@@ -1,4 +1,5 @@
 import PydraModel.WfCache.Lemmas
+import PydraModel.Props.C03
 /-
 C30 — Workflow construction caching and repeated runs are transparent.
 
@@ -15,6 +16,18 @@ PROVED (`C30_partial`, histories of ANY length, any number of tasks, classes and
 view uninterpreted): if no input is assigned in place after the instance memoised its construction (`okHist`, decidable),
 classes with equal hash have equal constructors (`ClosureFree`), the value hash separates the values (`HashInj`, C08) and
 the constructor does not branch on lazy inputs (`LazyParametric`), then cached = uncached, observation by observation.
+
+REPEATED RUNS OVER THE SAME OBJECTS.  The cache hands the same `Workflow` — the same node and `State` objects — to every task
+with equal inputs, and every `Submitter` call re-applies `Workflow._create_graph` to them.  In the machine above `exec` is
+a function of (graph, inputs); whether executing really leaves the graph as it was is a statement about the state machinery
+(engine WfState, `Model.runTwice`):
+  `C30_create_graph_idempotent_Simple_partial`   PROVED for every workflow of the class `Simple` (no combiner, no scalar
+                          splitter, no shared origins; WfState/Simple.lean): the second run — graph pass over the state objects
+                          the first run left behind, then all nodes — succeeds with exactly the first run's result.
+  `C30_witness_rerun_partial_zip`  (D29)  outside the class: the first run succeeds, the second raises PydraStateError
+  `C30_witness_rerun_name_clash`   (D39)  outside the class: the first run succeeds AND agrees with the reference, the second
+                          raises AttributeError
+  `C30_create_graph_not_idempotent`      hence the unrestricted statement is false for the pinned tree.
 -/
 namespace PydraModel.WfCache
 
@@ -473,3 +486,44 @@ example : runHist sigA (init sigA [(0, v1), (0, v1)]) goodHist = specHist sigA [
   C30_partial sigA sigA_closureFree sigA_hashInj sigA_lazyParametric _ _ (by decide)
 
 end PydraModel.WfCache
+
+/-! ### repeated runs over the same node and state objects -/
+namespace PydraModel.WfState
+open Model
+
+/-- **`_create_graph` + run is idempotent on the class `Simple` (PARTIAL).**  Running a constructed workflow of the class a
+    second time over the same state objects gives exactly the first run's result (outputs, job counts, job outputs). -/
+theorem C30_create_graph_idempotent_Simple_partial (w : Wf) (h : Simple.simple w = true) :
+    ∃ m, Model.run w = .ok m ∧ ∃ r2, Model.runTwice w = .ok (m, r2) ∧ r2 = .ok m :=
+  Simple.simple_rerun w h
+
+/-- WITNESS (D29): first run fine (no job at the fan-in: the model's and the code's shared defect), second run
+    PydraStateError from `_remove_repeated`: after the first run `N0`'s final splitter is empty, `_create_graph` drops it from
+    `other_states`, and the fan-in's stored prev-state splitter still names `_N0`. -/
+theorem C30_witness_rerun_partial_zip :
+    rerunSummary rerunPartialZip = some (.ok [(0, 2), (1, 3), (2, 0)] [[]], .crash .pydraStateError) := by decide +kernel
+
+/-- WITNESS (D39): the first run succeeds and agrees with the reference; the second run raises AttributeError. -/
+theorem C30_witness_rerun_name_clash :
+    rerunSummary rerunNameClash = some (.ok [(0, 2), (1, 1), (2, 1)] [[[], [], [], []]], .crash .attributeError) ∧
+    specSummary rerunNameClash = .ok [(0, 2), (1, 1), (2, 1)] [[[], [], [], []]] := by decide +kernel
+
+/-- The unrestricted statement "a second run over the same objects gives the first run's result" is false. -/
+theorem C30_create_graph_not_idempotent :
+    ¬ (∀ w : Wf, Class.wellFormed w = true → ∀ m r2, Model.runTwice w = .ok (m, r2) → r2 = .ok m) := by
+  intro h
+  have hw : Class.wellFormed rerunNameClash = true := by decide +kernel
+  have hs := C30_witness_rerun_name_clash.1
+  unfold rerunSummary at hs
+  cases hr : Model.runTwice rerunNameClash with
+  | error e => rw [hr] at hs; exact absurd hs (by simp)
+  | ok p =>
+    obtain ⟨m, r2⟩ := p
+    rw [hr] at hs
+    have h2 := h rerunNameClash hw m r2 hr
+    subst h2
+    simp only [Option.some.injEq, Prod.mk.injEq] at hs
+    have := hs.1.symm.trans hs.2
+    exact absurd this (by decide)
+
+end PydraModel.WfState
